@@ -259,3 +259,61 @@ def r_clipsym(idx, rep, modules, rule="R-CLIPSYM", floor=4):
                               "`%s`: %s" % (u(c)[:90], "the lower bound is not the negation of the upper bound" if not sym else
                                             "the upper bound is not half of a size parameter (0.5 * size): the shape is centred in its frame, its extent is +-size/2"),
                               "[-h, +h], h = half size")
+
+
+CENTRED = ("cylinder", "capsule", "box", "rectangle")
+SIZE_WORDS = ("length", "height", "size", "lengths")
+
+
+def r_halfsize(idx, rep, modules, rule="R-HALFSIZE", floor=5):
+    """cylinder / capsule / box / rectangle are centred in their frame: their extent along a sized axis is +-size/2.  A function that
+    halves a size parameter somewhere uses it halved everywhere (apart from handing it on to another library function); a bare `length`
+    next to `0.5 * length` is the full-size-for-half-size slip."""
+    from ..core.astutil import parent_map
+    rep.rule(rule, "functions of centred shapes (cylinder, capsule, box, rectangle) that use 0.5 * size somewhere never use the bare size in "
+                   "arithmetic / comparisons / min / max (full extent where the half extent is meant)", floor=floor)
+    for mname in modules:
+        m = idx.modules.get(mname)
+        if m is None:
+            continue
+        for f in m.functions.values():
+            if not any(w in f.name.lower() or (f.cls is not None and w in f.cls.name.lower()) for w in CENTRED):
+                continue
+            ps = [p for p in f.params() if any(w in p for w in SIZE_WORDS) and "segment" not in p]
+            if not ps:
+                continue
+            pm = parent_map(f.node)
+
+            def halved(node):
+                p = pm.get(node)
+                while isinstance(p, ast.Subscript) and p.value is node:
+                    node, p = p, pm.get(p)
+                if isinstance(p, ast.BinOp) and isinstance(p.op, ast.Mult):
+                    other = p.right if p.left is node else p.left
+                    v = const(other)
+                    if isinstance(v, float) and abs(v) == 0.5:
+                        return True
+                if isinstance(p, ast.BinOp) and isinstance(p.op, ast.Div) and p.left is node and const(p.right) in (2, 2.0):
+                    return True
+                return False
+
+            def passed_on(node):
+                p = pm.get(node)
+                while isinstance(p, ast.Subscript) and p.value is node:
+                    node, p = p, pm.get(p)
+                if isinstance(p, ast.keyword):
+                    return True
+                if isinstance(p, ast.Call) and node in p.args:
+                    cn = call_name(p) or ""
+                    return cn.split(".")[-1] not in ("min", "max", "minimum", "maximum", "clip")
+                return False
+            for p in ps:
+                uses = [n for n in ast.walk(f.node) if isinstance(n, ast.Name) and n.id == p and isinstance(n.ctx, ast.Load)]
+                h = [n for n in uses if halved(n)]
+                if not h:
+                    continue
+                bare = [n for n in uses if not halved(n) and not passed_on(n)]
+                key = "%s|%s is used halved throughout" % (f.key, p)
+                rep.check(not bare, rule, key, "%s:%d" % (m.relpath, (bare[0].lineno if bare else f.node.lineno)),
+                          "`%s` is halved elsewhere in %s but used at full size in `%s`: the shape is centred, its extent along that axis is +-%s/2"
+                          % (p, f.name, u(pm.get(bare[0]))[:70] if bare else "", p), "halved in all %d uses" % len(h))
